@@ -11,17 +11,13 @@ for a, b, n, dst in [(1, 1, 1, True), (1, 1, 1, False), (1, 1, 2, True), (1, 1, 
                 inputs="a: %d bytes, b: %d bytes, ref name: %d bytes, d: 1 byte - all values without '*'%s" % (a, b, n, "; name shorter than prefix+suffix (overlap case)" if n < a + b else ""),
                 bound="unwind 8"))
 
-for r, what in [(0, "<p>"), (1, "refs/<p>"), (2, "refs/tags/<p>"), (3, "refs/heads/<p>"), (4, "refs/remotes/<p>"), (5, "refs/remotes/<p>/HEAD"), ("not", "refs/notes/<p> (not an expansion: must not match)")]:
-    hs.append(H("c32::partial::c32_partial_%s" % ("r%d" % r if r != "not" else "not"), tier="quick" if r in (3, 5, "not") else "thorough", timeout=900, mem=10, covers=1, extra_args=STUB, thorough_timeout=2400,
-                desc="a partial-name source matches exactly the refs git's ref_rev_parse_rules expand it to", inputs="partial name: 2 arbitrary bytes without '*' and '/'; remote ref: %s" % what, bound="unwind 34"))
-
 SPEC = {
     "id": "C32",
     "crate": "h-object",
     "harnesses": hs,
     "functions": ["gix_refspec::match_group::util::{Matcher::from, Matcher::matches_lhs, Needle::from, Needle::matches, Needle::to_bstr_replace} (via a guarded forwarder that builds the one-spec matcher exactly as match_remotes() does)"],
-    "bounds": "partial-name sources of 2 bytes against each of git's six expansions and one non-expansion; one glob spec with prefix/suffix of <= 2 bytes each, ref names <= 4 bytes, all byte values; includes every name shorter than prefix+suffix",
-    "outside": ["MatchGroup::match_remotes bookkeeping over several specs (negative specs, validation, de-duplication: BTreeSet/Vec sorting)", "full-name and object-id sources; partial names longer than 2 bytes or containing '/'", "refspec parsing", "longer names"],
+    "bounds": "one glob spec with prefix/suffix of <= 2 bytes each, ref names <= 4 bytes, all byte values; includes every name shorter than prefix+suffix",
+    "outside": ["MatchGroup::match_remotes bookkeeping over several specs (negative specs, validation, de-duplication: BTreeSet/Vec sorting)", "non-glob sources: full names, object ids and partial names (tried: a 2-byte partial name against one expansion ran out of memory at 24 GB - expand_partial_name builds each candidate in a BString)", "refspec parsing", "longer names"],
     "stubs": ["alloc::fmt::format -> empty String"],
     "assumptions": ["model_match_name_with_pattern is git's remote.c function (unit-tested on documented examples)"],
     "manifest": {
